@@ -735,8 +735,9 @@ func ruleS5(r *Run) {
 			return false
 		}
 		found := false
-		ast.Inspect(fd.Body, func(n ast.Node) bool {
-			if id, ok := n.(*ast.Ident); ok && pkg.TypesInfo.Uses[id] == o {
+		// also in the helpers the function calls (the mapping may have been extracted)
+		p.deepInspect(pkg.TypesInfo, fd.Body, 2, func(info *types.Info, n ast.Node) bool {
+			if id, ok := n.(*ast.Ident); ok && info.Uses[id] == o {
 				found = true
 			}
 			return true
